@@ -84,6 +84,61 @@ Proof.
 Qed.
 Print Assumptions C03_period_spec_correct.
 
+(* one-node special cases of _compute_period: always period 1; with a self-loop 1 is the gcd of the closed-walk
+   lengths, without one there is no closed walk of positive length (documented convention) *)
+Theorem C03_one_node : forall e sc order pred,
+  compute_period 1 e sc order pred = POk 1 [0] /\
+  (e 0 0 = true -> is_period 1 e 1) /\
+  (e 0 0 = false -> forall u len, walk 1 e u u len -> len = 0).
+Proof. exact one_node_period. Qed.
+Print Assumptions C03_one_node.
+
+(* self-loop shortcut (np.any(diagonal > 0)): period 1 is correct, whatever the BFS arguments *)
+Theorem C03_selfloop_shortcut : forall n e order pred, 2 <= n -> existsb (fun u => e u u) (seq 0 n) = true ->
+  compute_period n e true order pred = POk 1 (repeat 0 n) /\ is_period n e 1.
+Proof. exact selfloop_period. Qed.
+Print Assumptions C03_selfloop_shortcut.
+
+(* DiGraph.subgraph of a recurrent class: it is strongly connected, and its period is the gcd of the lengths of the
+   closed walks of the ORIGINAL graph through members of the class (is_period_class) *)
+Theorem C03_subgraph_class : forall n e c, In c (sink_spec n e) ->
+  (forall a b, a < length c -> b < length c -> reach (length c) (subgraph e c) a b) /\
+  (forall p, is_period (length c) (subgraph e c) p <-> is_period_class n e c p).
+Proof.
+  intros n e c Hc. destruct (sink_class_facts n e c Hc) as [Hnd [Hlt [Hcl [Hcomm _]]]]. split.
+  - exact (sub_strongly_connected n e c Hnd Hlt Hcl Hcomm).
+  - exact (period_transfer n e c Hnd Hlt Hcl).
+Qed.
+Print Assumptions C03_subgraph_class.
+
+(* MarkovChain.period of a REDUCIBLE chain (repository logic on any valid labelling and any valid BFS output on each
+   recurrent-class subgraph): the lcm over the recurrent classes of the period of each class, where class_period c p
+   means p is the gcd of the closed-walk lengths through c (p = 1 for a single state without self-loop);
+   is_aperiodic holds iff that lcm is 1 *)
+Theorem C03_mc_period_reducible : forall n e num proj order pred aux, 0 < n ->
+  valid_labeling n (closure n e) num proj = true -> num <> 1 ->
+  Forall2 (aux_valid e) (sink_scc_indices n num proj (edges n e)) aux ->
+  exists ps, Forall2 (class_period n e) (sink_scc_indices n num proj (edges n e)) ps /\
+    mc_period n e num proj order pred aux = Z.of_nat (fold_left lcm ps 1) /\
+    (mc_is_aperiodic (mc_period n e num proj order pred aux) = 1%Z <-> fold_left lcm ps 1 = 1).
+Proof. exact mc_period_reducible. Qed.
+Print Assumptions C03_mc_period_reducible.
+
+(* irreducible chain: MarkovChain.period is DiGraph.period = gcd of closed-walk lengths; is_aperiodic <-> period = 1 *)
+Theorem C03_mc_period_irreducible : forall n e proj order pred aux, 2 <= n ->
+  (forall u v, u < n -> v < n -> reach n e u v) -> valid_tree n e order pred = true ->
+  exists per, mc_period n e 1 proj order pred aux = Z.of_nat per /\ is_period n e per /\
+    (mc_is_aperiodic (mc_period n e 1 proj order pred aux) = 1%Z <-> per = 1).
+Proof. exact mc_period_irreducible. Qed.
+Print Assumptions C03_mc_period_irreducible.
+
+(* DiGraph.is_aperiodic = (period == 1) = "only 1 divides all closed-walk lengths" *)
+Theorem C03_aperiodic_spec : forall n e per proj, is_period n e per ->
+  (dg_is_aperiodic (POk per proj) = 1%Z <-> per = 1) /\
+  (per = 1 <-> forall D, (forall u len, walk n e u u len -> (D | Z.of_nat len)%Z) -> (D | 1)%Z).
+Proof. exact aperiodic_spec. Qed.
+Print Assumptions C03_aperiodic_spec.
+
 (* hypotheses are satisfiable: a 6-cycle with a chord (period 2), SciPy-like BFS tree and labelling *)
 Definition ex_adj : list (list nat) := [[1]; [2]; [3; 5]; [4]; [5]; [0]].
 Example ex_valid_tree : valid_tree 6 (adj_edge ex_adj) [0; 1; 2; 3; 5; 4] [-9999; 0; 1; 2; 3; 2]%Z = true.
@@ -100,3 +155,12 @@ Example ex_reducible : valid_labeling 4 (closure 4 (adj_edge [[1; 3]; [2]; [1]; 
   /\ sink_scc_indices 4 3 [2; 1; 1; 0] (edges 4 (adj_edge [[1; 3]; [2]; [1]; [3]])) = [[3]; [1; 2]]
   /\ sink_spec 4 (adj_edge [[1; 3]; [2]; [1]; [3]]) = [[1; 2]; [3]].
 Proof. vm_compute. repeat split; reflexivity. Qed.
+(* aux_valid is satisfiable on the reducible example: classes [3] (one node) and [1;2] (2-cycle, BFS order [0;1]) *)
+Example ex_aux_valid :
+  Forall2 (aux_valid (adj_edge [[1; 3]; [2]; [1]; [3]])) [[3]; [1; 2]] [(true, [], []); (true, [0; 1], [-9999; 0]%Z)]
+  /\ mc_period 4 (adj_edge [[1; 3]; [2]; [1]; [3]]) 3 [2; 1; 1; 0] [] [] [(true, [], []); (true, [0; 1], [-9999; 0]%Z)] = 2%Z.
+Proof.
+  split; [|vm_compute; reflexivity].
+  constructor; [split; [reflexivity | intros H; exfalso; simpl in H; apply (Nat.nle_succ_0 _ (le_S_n _ _ H))]|].
+  constructor; [split; [reflexivity | intros _ _; vm_compute; reflexivity] | constructor].
+Qed.
